@@ -18,6 +18,7 @@ checks = sys.argv[4:] or [prop]
 src = os.path.join(wt, "_seed", letter)
 patch = os.path.join(src, "patch.diff")
 PY = "/venv/bin/python"
+EV = "/tmp/se-ev-%s-%s" % (prop, letter)
 
 
 def sh(cmd, cwd=None, timeout=3600):
@@ -61,14 +62,16 @@ try:
     assert out.strip().splitlines()[-1].startswith(wt), out
     for c in checks:
         t0 = time.time()
-        rc, out = sh("PYTHONPATH=%s VF_JOBS=%s ./check %s --tier quick" % (wt, os.environ.get("VF_JOBS", "8"), c), "/verif")
-        lines = [l for l in out.splitlines() if l.startswith(("VIOLATION", "HARNESS-ERROR", "INCONCLUSIVE", "KNOWN-FINDING", "ENCODING-ERROR"))]
+        rc, out = sh("PYTHONPATH=%s VF_JOBS=%s VF_EVIDENCE_DIR=%s ./check %s --tier quick"
+                     % (wt, os.environ.get("VF_JOBS", "8"), EV, c), "/verif")
+        lines = [l.replace(EV, "<evidence>") for l in out.splitlines()
+                 if l.startswith(("VIOLATION", "HARNESS-ERROR", "INCONCLUSIVE", "KNOWN-FINDING", "ENCODING-ERROR"))]
         meta["checks_run"][c] = {"exit": rc, "seconds": round(time.time() - t0), "lines": [l[:300] for l in lines[:6]]}
         print(c, "exit", rc, lines[:3])
         open("/tmp/seedlog-%s-%s-%s.log" % (prop, letter, c), "w").write(out)
 finally:
     sh("git checkout -- xyzpy", wt)
-    sh("git -C /verif checkout -- evidence")
+    shutil.rmtree(EV, ignore_errors=True)
 
 dst = "/verif/seeded/%s-%s" % (prop, letter)
 os.makedirs(dst, exist_ok=True)
